@@ -1142,3 +1142,226 @@ func c15r7(p *Program, r *Report) {
 		r.Unresolved("no Iter method loops on Scan")
 	}
 }
+
+// c16r14: a batch of server events may hold topology and status events together; scheduling the ring refresh is no
+// reason to skip the status events: every way out of handleNodeEvent has passed the loop that dispatches the
+// collected UP / DOWN events (the refresh never changes the up/down state or the pools of known nodes).
+func c16r14(p *Program, r *Report) {
+	fi := r.NeedFunc("(*Session).handleNodeEvent")
+	if fi == nil {
+		return
+	}
+	info := fi.Pkg.TypesInfo
+	var reachesStatus func(body ast.Node, depth int) bool
+	reachesStatus = func(body ast.Node, depth int) bool {
+		found := false
+		ast.Inspect(body, func(x ast.Node) bool {
+			c, ok := x.(*ast.CallExpr)
+			if !ok || found {
+				return true
+			}
+			if isCallTo(info, c, "(*Session).handleNodeUp", "(*Session).handleNodeDown") {
+				found = true
+				return true
+			}
+			if depth < 2 {
+				if fn := calleeOf(info, c); fn != nil {
+					if h := p.FuncOf(fn); h != nil && h.Pkg == p.Root && h.Decl.Body != nil && reachesStatus(h.Decl.Body, depth+1) {
+						found = true
+					}
+				}
+			}
+			return true
+		})
+		return found
+	}
+	g := p.GraphOfInl(fi)
+	nloop := 0
+	ef := g.Events(func(st Step) []string {
+		if st.Kind == StRange {
+			if rs, ok := st.Node.(*ast.RangeStmt); ok && reachesStatus(rs.Body, 0) {
+				return []string{"dispatch"}
+			}
+		}
+		if st.Kind == StNode {
+			if fs, ok := p.Parent(st.Node).(*ast.ForStmt); ok && fs.Init == st.Node && reachesStatus(fs.Body, 0) {
+				return []string{"dispatch"}
+			}
+		}
+		return nil
+	})
+	for _, u := range g.Units() {
+		ast.Inspect(u.Decl.Body, func(x ast.Node) bool {
+			switch l := x.(type) {
+			case *ast.RangeStmt:
+				if reachesStatus(l.Body, 0) {
+					nloop++
+				}
+			case *ast.ForStmt:
+				if reachesStatus(l.Body, 0) {
+					nloop++
+				}
+			}
+			return true
+		})
+	}
+	if nloop == 0 {
+		r.Unresolved("handleNodeEvent: no loop dispatches status events to handleNodeUp / handleNodeDown")
+		return
+	}
+	n := 0
+	for _, e := range g.Exits() {
+		if e.Kind == ExitPanic {
+			continue
+		}
+		s, ok := ef.ExitState(e)
+		if !ok {
+			continue
+		}
+		n++
+		r.Check(s.Must["dispatch"], e.Node, "(*Session).handleNodeEvent exit "+exitDesc(p, e)+" has dispatched the status events", "the dispatch loop is passed on every path",
+			"handleNodeEvent can return without dispatching the UP / DOWN events of the batch (for instance right after scheduling a ring refresh): a node reported DOWN stays connected and is offered to queries, a node reported UP is never reconnected")
+	}
+	if n == 0 {
+		r.Unresolved("handleNodeEvent has no exits")
+	}
+}
+
+// c16r15: removing an address that is not in a host list changes nothing: in (*cowHostList).remove the "not found"
+// answer is decided by a variable whose initial value means "not found" and that is changed only where an element
+// matched. A search index that starts at 0 makes every miss look like a hit of the first element.
+func c16r15(p *Program, r *Report) {
+	fi := r.NeedFunc("(*cowHostList).remove")
+	if fi == nil {
+		return
+	}
+	g := p.GraphOf(fi)
+	info := g.Info
+	facts := g.GuardFacts()
+	// the early `return false` that follows the search: its condition
+	var notFound *ast.IfStmt
+	var searchEnd token.Pos
+	ast.Inspect(fi.Decl.Body, func(x ast.Node) bool {
+		switch l := x.(type) {
+		case *ast.ForStmt:
+			if l.End() > searchEnd {
+				searchEnd = l.End()
+			}
+		case *ast.RangeStmt:
+			if l.End() > searchEnd {
+				searchEnd = l.End()
+			}
+		}
+		return true
+	})
+	ast.Inspect(fi.Decl.Body, func(x ast.Node) bool {
+		ifs, ok := x.(*ast.IfStmt)
+		if !ok || ifs.Pos() < searchEnd || notFound != nil || len(ifs.Body.List) == 0 {
+			return true
+		}
+		if rs, isR := ifs.Body.List[len(ifs.Body.List)-1].(*ast.ReturnStmt); isR && len(rs.Results) == 1 {
+			if tv, has := info.Types[rs.Results[0]]; has && tv.Value != nil && tv.Value.String() == "false" {
+				notFound = ifs
+			}
+		}
+		return true
+	})
+	if notFound == nil || searchEnd == token.NoPos {
+		r.Unresolved("(*cowHostList).remove: no search loop followed by an early `return false`")
+		return
+	}
+	// the variables the condition depends on
+	okAll, nvar := true, 0
+	why := ""
+	ast.Inspect(notFound.Cond, func(x ast.Node) bool {
+		id, ok := x.(*ast.Ident)
+		if !ok {
+			return true
+		}
+		v, isVar := info.Uses[id].(*types.Var)
+		if !isVar || v.IsField() {
+			return true
+		}
+		// only flags and indexes are sentinels (a test on the length of the list that was built is judged by C11.R3)
+		if b, isB := v.Type().Underlying().(*types.Basic); !isB || b.Info()&(types.IsBoolean|types.IsInteger) == 0 {
+			return true
+		}
+		// skip variables that are never assigned inside the search loop (sizes, the list itself)
+		assignedInLoop := false
+		var initVal ast.Expr
+		ast.Inspect(fi.Decl.Body, func(y ast.Node) bool {
+			as, isAs := y.(*ast.AssignStmt)
+			if !isAs {
+				return true
+			}
+			for i, l := range as.Lhs {
+				lid, isId := l.(*ast.Ident)
+				if !isId || (info.Defs[lid] != types.Object(v) && info.Uses[lid] != types.Object(v)) {
+					continue
+				}
+				if p.inLoop(as, fi.Decl) {
+					assignedInLoop = true
+					// only where an element matched: the element comparison is known true
+					f, _ := facts.Before(as)
+					matched := false
+					for atom, val := range f.m {
+						if val && (strings.Contains(atom, ".Equal(") || strings.Contains(atom, " == ")) && !strings.Contains(atom, "len(") {
+							matched = true
+						}
+					}
+					if !matched {
+						okAll, why = false, lid.Name+" is changed at "+p.Pos(as)+" where no element is known to have matched"
+					}
+				} else if len(as.Lhs) == len(as.Rhs) {
+					initVal = as.Rhs[i]
+				}
+			}
+			return true
+		})
+		if !assignedInLoop {
+			return true
+		}
+		nvar++
+		// the initial value makes the "not found" condition true
+		if initVal == nil {
+			okAll, why = false, id.Name+" has no initial value before the search"
+			return true
+		}
+		ev := &evalEnv{info: info, fi: fi, vars: map[string]int64{}, seen: map[types.Object]bool{}}
+		holds := false
+		switch iv := ast.Unparen(initVal).(type) {
+		case *ast.Ident:
+			if iv.Name == "false" || iv.Name == "true" {
+				// condition is the flag or its negation
+				c := ast.Unparen(notFound.Cond)
+				neg := false
+				if u, isU := c.(*ast.UnaryExpr); isU && u.Op == token.NOT {
+					neg, c = true, ast.Unparen(u.X)
+				}
+				if cid, isId := c.(*ast.Ident); isId && cid.Name == id.Name {
+					holds = (iv.Name == "true") != neg
+				}
+			}
+		}
+		if k, isK := constInt(info, initVal); isK {
+			if b, isB := ast.Unparen(notFound.Cond).(*ast.BinaryExpr); isB {
+				ev.vars[id.Name] = k
+				l, ok1 := ev.eval(b.X)
+				rr, ok2 := ev.eval(b.Y)
+				if ok1 && ok2 {
+					holds = cmpInt(l, b.Op, rr)
+				}
+			}
+		}
+		if !holds {
+			okAll, why = false, "with its initial value "+exprStr(initVal)+" the test `"+exprStr(notFound.Cond)+"` does not say 'not found'"
+		}
+		return true
+	})
+	if nvar == 0 {
+		r.OK(notFound, "(*cowHostList).remove leaves the list alone when the address is not in it", "the not-found test does not use a flag or index sentinel (it compares what was built with the original)")
+		return
+	}
+	r.Check(okAll, notFound, "(*cowHostList).remove leaves the list alone when the address is not in it", "the not-found test holds initially and its variable changes only where an element matched",
+		"removing an address that is not in the list is not recognised as 'not found' ("+why+"): an unrelated host (the first of the list) is dropped from the selection policy, e.g. when a DOWN event is followed by the removal of the same node")
+}
